@@ -39,10 +39,14 @@ PIPE = [P('Src', params=[par('x')]),
         P('Mid', params=[par('y', default=5)], inputs=[inp('Src')], data='dir'),
         P('Out', inputs=[inp('Mid'), inp('src', 'name')], data='json'),
         P('Note', params=[par('x')], data='mem'),
-        P('Feed', inputs=[inp('Src')], data='lazy')]
+        P('Feed', inputs=[inp('Src')], data='lazy'),
+        P('Arr', inputs=[inp('Src')], data='listnpy12'),
+        P('Stats', group='features', params=[par('y', default=5)]),
+        P('Stats2', meta_name='stats', inputs=[inp('Src')]),
+        P('Pos', inputs=[inp('features:stats', 'name'), inp('stats', 'name'), inp('Mid')], access='index')]
 PAIRS = [({'x': 0}, {'x': False}), ({'x': 1}, {'x': 1.0}), ({'x': ''}, {'x': None}),
          ({'x': ['a', 'b']}, {'x': ["a', 'b"]}), ({'x': 0, 'y': 5}, {'x': 0, 'y': 6}), ({'x': 'k'}, {'x': 'k'})]
-NAMES = ['src', 'mid', 'out', 'note', 'feed']
+NAMES = ['src', 'mid', 'out', 'note', 'feed', 'pos']
 
 
 def bounds(tier):
@@ -99,9 +103,12 @@ def h1(case):
     _, pi, h, first, slim = case
     hist.setup(full=False)
     cfgs = list(PAIRS[pi])
-    OPS = [('build', 0), ('build', 1)] + [('req', j) for j in range(4)] + \
-          [('forcereq', j) for j in ((0, 1) if slim else range(3))] + \
-          [('failreq', j) for j in ((1, 2) if slim else range(3))] + [('req', 4), ('failitem', 4), ('restart', 0)]
+    if slim:
+        OPS = [('build', 0), ('build', 1), ('req', 1), ('req', 2), ('req', 4), ('req', 5), ('forcereq', 1), ('failreq', 2),
+               ('failitem', 4), ('restart', 0)]
+    else:
+        OPS = [('build', 0), ('build', 1)] + [('req', j) for j in range(6)] + [('forcereq', j) for j in range(3)] + \
+              [('failreq', j) for j in range(3)] + [('failitem', 4), ('restart', 0)]
 
     def harness(ctx):
         world = hist.World(PIPE, cfgs)
@@ -111,7 +118,7 @@ def h1(case):
         trace = [('build', first % 2)]
         if first == 2:
             # start from a store in which configuration B already computed everything
-            for n in NAMES:
+            for n in NAMES + ['arr', 'pos']:
                 world.request(cur, n)
                 ref.request(cur, n)
             trace.append(('compute-all', 1))
@@ -162,7 +169,9 @@ def h1(case):
                     family.FAIL[fail] = boom
                 got = world.request(cur, name)
                 family.FAIL.pop(fail, None)
-                ref.request(cur, name, fail=fail)
+                _, exp_outcome, _ = ref.request(cur, name, fail=fail)
+                if got[0] != 'ok' and exp_outcome == 'ok' or got[0] == 'error':
+                    ctx.check_concrete(False, 'own-value', dict(info, config=ci, task=name, got=repr(got)[:300], own=repr(own)[:300]))
                 if got[0] == 'ok':
                     val = family.norm_input(got[1])
                     known = QUOTE if any("'" in str(v) for c in cfgs for v in (c['x'] if isinstance(c['x'], list) else [])) else None
@@ -175,7 +184,7 @@ def h1(case):
             k = world.build(ci)
             kr = hist.Ref(PIPE, cfgs)
             kr.build(ci)
-            for n in NAMES[:3] + ['feed']:
+            for n in NAMES[:3] + ['feed', 'arr', 'pos']:
                 if world.task(k, n).has_data:
                     mark = world.mark()
                     got = world.request(k, n)
